@@ -101,6 +101,10 @@ func (c *PoolController) CreateOrUpdate(req *restful.Request, resp *restful.Resp
 		httputil.BadRequest(resp, fmt.Errorf("pool name is empty"))
 		return
 	}
+	// the size written below is the size in force for the pre-allocation only while no other request for this pool gets in
+	// between: writing the object and pre-allocating are one section under the pool lock
+	poolPrefix := util.NewKeyObj(util.DeploymentPrefixKey, "", "", "", pool.Name).PoolPrefix()
+	defer c.LockPoolFunc(poolPrefix)()
 	p, err := c.Client.GalaxyV1alpha1().Pools("kube-system").Get(context.TODO(), pool.Name, v1.GetOptions{})
 	if err != nil {
 		if !errors.IsNotFound(err) {
@@ -130,16 +134,15 @@ func (c *PoolController) CreateOrUpdate(req *restful.Request, resp *restful.Resp
 		}
 	}
 	if pool.PreAllocateIP {
-		c.preAllocateIP(req, resp, &pool)
+		c.preAllocateIP(req, resp, &pool, poolPrefix)
 		return
 	}
 	httputil.Ok(resp)
 	return
 }
 
-func (c *PoolController) preAllocateIP(req *restful.Request, resp *restful.Response, pool *Pool) {
-	poolPrefix := util.NewKeyObj(util.DeploymentPrefixKey, "", "", "", pool.Name).PoolPrefix()
-	defer c.LockPoolFunc(poolPrefix)()
+// preAllocateIP is called with the pool lock held
+func (c *PoolController) preAllocateIP(req *restful.Request, resp *restful.Response, pool *Pool, poolPrefix string) {
 	fips, err := c.IPAM.ByPrefix(poolPrefix)
 	if err != nil {
 		httputil.InternalError(resp, err)
